@@ -75,6 +75,8 @@ def run_history(cfg, ops):
             if base < -1e-12:
                 vios.append((f'C04:{what}:negative-base', f'{s} {base!r}'))
             pq = b.positions[s].qty
+            if pq != base:
+                vios.append((f'C04:{what}:position-size-not-identical-to-base', f'{s} position.qty {pq!r} vs base balance {base!r} (an order for position.qty would be {"rejected" if pq > base else "short of the balance"})'))
             if not close_enough(fr(pq), fr(base)):
                 vios.append((f'C04:{what}:position-size-differs-from-base', f'{s} position.qty {pq!r} vs base balance {base!r}'))
             if pq < -1e-12:
@@ -135,6 +137,33 @@ def run_history(cfg, ops):
                 if typ == 'MARKET':
                     feed()
                     o.execute()
+            elif kind == 'bracket':
+                # take-profit (LIMIT sell above) and stop-loss (STOP sell below) resting at the same time, as strategies declare them
+                s = syms[op[1] % len(syms)]
+                cur = b.positions[s].current_price
+                free_l = float(model.base_of(s) - model.resting_sells(s, 'LIMIT'))
+                free_s = float(model.base_of(s) - model.resting_sells(s, 'STOP'))
+                applied.append(op)
+                what = 'bracket'
+                for typ, free, frac, price in (('LIMIT', free_l, op[2], round(cur + 5, 1)), ('STOP', free_s, op[3], max(0.1, round(cur - 5, 1)))):
+                    qty = float(f'{free * frac:.8f}')
+                    if qty <= 0:
+                        continue
+                    lhs, rhs = model.accepts(s, 'sell', typ, qty, price)
+                    if lhs > rhs:
+                        continue
+                    ambiguous = abs(lhs - rhs) <= TOL * max(1, abs(rhs))
+                    try:
+                        live.append(b.order(s, 'sell', typ, qty, price, reduce_only=True))
+                    except InsufficientBalance:
+                        flags.add('rejection')
+                        if not ambiguous:
+                            vios.append((f'C04:bracket-sell-{typ}:rejected-although-affordable', f'sell {typ} qty={qty!r} rejected; needs {float(lhs)!r}, available {float(rhs)!r}'))
+                        ended = True
+                        break
+                    feed()
+                if ended:
+                    break
             elif kind == 'modify':
                 # what strategies do to change an order: cancel it and submit a replacement of another size
                 act = [o for o in live if o.is_active and o.type != 'MARKET']
@@ -211,7 +240,8 @@ def run_shard(acc, shard, nshards, seed, tier):
     submit = st.tuples(st.just('submit'), st.integers(0, 1), st.sampled_from(['buy', 'buy', 'sell', 'sell', 'sell']),
                        st.sampled_from(['MARKET', 'LIMIT', 'LIMIT', 'STOP']), sizes, st.integers(-30, 30), st.booleans())
     modify = st.tuples(st.just('modify'), st.integers(0, 9), st.sampled_from(['same', 'bigger', 'max', 'max+released', 'half']))
-    op = st.one_of(submit, submit, submit, modify, modify, st.tuples(st.just('cancel'), st.integers(0, 9)), st.tuples(st.just('cancel'), st.integers(0, 9)),
+    bracket = st.tuples(st.just('bracket'), st.integers(0, 1), st.sampled_from([0.25, 0.5, 0.6, 1.0]), st.sampled_from([0.5, 0.999, 1.0, 1.0]))
+    op = st.one_of(submit, submit, submit, modify, modify, bracket, st.tuples(st.just('execute'), st.integers(0, 9)), st.tuples(st.just('execute'), st.integers(0, 9)), st.tuples(st.just('cancel'), st.integers(0, 9)), st.tuples(st.just('cancel'), st.integers(0, 9)),
                    st.tuples(st.just('execute'), st.integers(0, 9)), st.tuples(st.just('price'), st.integers(0, 1), st.integers(-20, 20)))
     cfgs = st.fixed_dictionaries(dict(fee=st.sampled_from([0.0, 0.001, 0.00075, 0.0075]), balance=st.sampled_from([10_000.0, 1_000.0, 99.99]),
                                        nsym=st.integers(1, 2)))
